@@ -394,6 +394,7 @@ pub fn replay(scratch: &Path, fixture: &MithrilFixture, history: &[Ev], tail: Ta
         stats.insert("fault_free_tails_run", tails_run);
         stats.insert("restarts", w.restarts as u64);
         stats.insert("critical_runtime_errors", w.critical_errors as u64);
+        stats.insert("panics_observed", w.panics as u64);
         let bucket = match n_pubs {
             0 => "0",
             1..=3 => "1-3",
